@@ -589,6 +589,12 @@ def spec_func(ex, st, ctx, name, args, node):
                                   z3.And(z3.Length(lsn) == z3.Length(lso),
                                          z3.ForAll([qi], z3.Implies(z3.And(qi >= 0, qi < z3.Length(lso), qi != idx),
                                                                     lsn[qi] == lso[qi]))))))
+    if name == "prefix_unchanged":
+        # the first n elements of this list object are what they were in the pre-state
+        pre = ctx.pre
+        r = rval(args[0])
+        n = as_int(args[1])
+        return VBool(z3.Extract(z3.Select(st.heap.LS, r), 0, n) == z3.Extract(z3.Select(pre.heap.LS, r), 0, n))
     if name == "isemptydict":
         v = args[0]
         return VBool(z3.And(is_Ref(v), ty(rval(v)) == T_DICT, z3.Select(st.heap.DP, rval(v)) == EMPTY_KP))
